@@ -167,7 +167,7 @@ def build_asset(a, ctx):
         for key in ("start_ramp_lower_bounds", "start_ramp_upper_bounds", "shutdown_ramp_lower_bounds",
                     "shutdown_ramp_upper_bounds"):
             if a.get(key) is not None:
-                k[key] = list(a[key])
+                k[key] = np.array(a[key], dtype=float) if a.get("profile_form") == "array" else list(a[key])
         if t == "plant":
             return Plant(**k)
         for key in ("conversion_factor_power_heat", "max_share_heat"):
